@@ -146,6 +146,15 @@ def mutate(rng, code):
     return code.replace('\n', rng.choice(['\r\n', '\r', '\n\n', '\\\n']), 1)
 
 
+# ---------------------------------------------------------------- regression inputs
+# Inputs of defects that were repaired (known_findings.json, status fixed): always part of every scope, so that the
+# violation is reported again if it ever returns (a fixed entry suppresses nothing).
+REGRESSION_PROGRAMS = [
+    "f'\\{x}'\n", "f'\\{{'\n", "f'a\\}}'\n", "rf'\\{x}'\n", "f'''\\{x}'''\n", "x = f'\\{a}' + f\"\\{{b\"\n",
+    "f'{a:\\{b}}'\n", "f'\\\\{x}\\}}'\n",
+]
+
+
 # ---------------------------------------------------------------- corpus
 def corpus_files(repo):
     out = []
@@ -273,6 +282,7 @@ def plan(alpha_name, n, rnd, tpl, seed, repo, files=True, nchunks=64, extra=''):
         np_ = nesting_programs()
         for i in range(0, len(np_), 8):
             chunks.append(('list', np_[i:i + 8]))
+    chunks.append(('list', list(REGRESSION_PROGRAMS)))
     if files:
         fs = corpus_files(repo)
         for i in range(0, len(fs), 4):
